@@ -31,11 +31,12 @@ type R struct {
 	names map[string]string // bech32 -> symbolic
 	addrs map[string]sdk.AccAddress
 	key   storetypes.StoreKey
-	g     *hx.Rng // per-history generator stream (see ResetLine)
+	g     *hx.Rng        // per-history generator stream (see ResetLine)
+	Stats map[string]int // finer histogram than op/result (appended to <out>.stats by the command)
 }
 
 func New(env *hx.Env) *R {
-	r := &R{env: env, names: map[string]string{}, addrs: map[string]sdk.AccAddress{}}
+	r := &R{env: env, names: map[string]string{}, addrs: map[string]sdk.AccAddress{}, Stats: map[string]int{}}
 	for i := 0; i < nAcc; i++ {
 		r.addrs[hx.AccName(i)] = hx.Acc(i)
 	}
@@ -794,6 +795,39 @@ func (r *R) Gen(ctx sdk.Context, g *hx.Rng) string {
 
 // ---------------------------------------------------------------- execution
 
+// countDue records how many contracts fall due in the block about to begin (bucket sizes).
+func (r *R) countDue(ctx sdk.Context) {
+	n := 0
+	r.env.HTLC.IterateHTLCExpiredQueueByHeight(ctx, uint64(ctx.BlockHeight()), func(tmbytes.HexBytes, htlctypes.HTLC) bool {
+		n++
+		return false
+	})
+	if n > 0 {
+		if n > 4 {
+			n = 5
+		}
+		r.Stats[fmt.Sprintf("x.block.due.%d", n)]++
+		r.Stats["x.refunds"] += n
+	}
+}
+
+// WriteStats appends the finer histogram to the stats file written by hx.
+func (r *R) WriteStats(path string) {
+	f, err := os.OpenFile(path, os.O_APPEND|os.O_WRONLY|os.O_CREATE, 0o644)
+	if err != nil {
+		return
+	}
+	defer f.Close()
+	keys := make([]string, 0, len(r.Stats))
+	for k := range r.Stats {
+		keys = append(keys, k)
+	}
+	sort.Strings(keys)
+	for _, k := range keys {
+		fmt.Fprintf(f, "%s=%d\n", k, r.Stats[k])
+	}
+}
+
 func (r *R) beginBlock(ctx sdk.Context) (panicked bool) {
 	p, _ := hx.NoPanic(func() { htlcmod.BeginBlocker(ctx, r.env.HTLC) })
 	return p
@@ -821,6 +855,7 @@ func (r *R) Exec(ctx sdk.Context, line string) (sdk.Context, string) {
 		msg = &htlctypes.MsgUpdateParams{Authority: r.addr(a["authority"]).String(), Params: htlctypes.Params{AssetParams: r.parseAssets(a["params"])}}
 	case "begin_block":
 		ctx = hx.WithBlock(ctx, i64("h"), time.Unix(0, i64("t")).UTC())
+		r.countDue(ctx)
 		if r.beginBlock(ctx) {
 			return ctx, hx.Panic + " " + r.state(ctx)
 		}
@@ -829,6 +864,7 @@ func (r *R) Exec(ctx sdk.Context, line string) (sdk.Context, string) {
 		n, dt := i64("n"), i64("dt")
 		for j := int64(0); j < n; j++ {
 			ctx = hx.WithBlock(ctx, ctx.BlockHeight()+1, ctx.BlockTime().Add(time.Duration(dt)))
+			r.countDue(ctx)
 			if r.beginBlock(ctx) {
 				return ctx, hx.Panic + " " + r.state(ctx)
 			}
@@ -837,7 +873,40 @@ func (r *R) Exec(ctx sdk.Context, line string) (sdk.Context, string) {
 	default:
 		hx.Fail("unknown op %q", line)
 	}
+	kind := ""
+	switch m := msg.(type) {
+	case *htlctypes.MsgCreateHTLC:
+		kind = "plain"
+		if m.Transfer {
+			kind = "transfer"
+		}
+		if a["to"] == "M" {
+			kind += ".to-escrow"
+		}
+	case *htlctypes.MsgClaimHTLC:
+		kind = "unknown"
+		if id, err := hex.DecodeString(m.Id); err == nil {
+			if h, ok := r.env.HTLC.GetHTLC(ctx, id); ok {
+				kind = []string{"plain", "incoming", "outgoing"}[int(h.Direction)%3] + "." + stateLetter(h.State)
+			}
+		}
+	default:
+		kind = "-"
+	}
 	out := r.env.Deliver(ctx, msg)
+	res := out.Class
+	if out.Class != hx.OK {
+		res += ":" + out.Err
+	} else if mc, ok := msg.(*htlctypes.MsgCreateHTLC); ok && mc.Transfer {
+		// direction the keeper assigned
+		for _, h := range r.htlcs(ctx) {
+			if h.State == htlctypes.Open && h.ClosedBlock == 0 && strings.EqualFold(h.HashLock, mc.HashLock) && h.Sender == mc.Sender && h.To == mc.To {
+				res += ":" + dirLetter(h.Direction)
+				break
+			}
+		}
+	}
+	r.Stats["x."+f[1]+"."+kind+"."+res]++
 	if os.Getenv("HTLC_DEBUG") != "" {
 		fmt.Fprintf(os.Stderr, "%s %s %s\n", f[1], out.Class, out.Err)
 	}
